@@ -146,6 +146,12 @@ def mutate (st : St) (op : Op) (got : String) : StepResult St := mutateCall st (
 
 def step (st : St) (op : String) (got : String) : StepResult St :=
   match op.splitOn " " with
+  | ["own", k] =>
+    -- how the caller treats the memory of the names it passes (harness: reused after every call,
+    -- root as nil): no table operation; the tables must not depend on it
+    { st := st, expected := some "ok",
+      cov := [s!"own-{k}"],
+      spec := if isCrash got then [⟨"no-panic", "op", s!"own: {got}"⟩] else [] }
   | ["new", m, names] =>
     match m.toNat?, (names.splitOn ",").mapM Name.ofText with
     | some m, some univ =>
